@@ -112,80 +112,94 @@ fn spellings(name: &str) -> Vec<String> {
 
 struct Opened {
     res: String,
+    path: String,
     ar: Option<Archive>,
 }
 
 fn open_variant(path: &str) -> Opened {
     if path.is_empty() {
-        return Opened { res: "none".into(), ar: None };
+        return Opened { res: "none".into(), path: String::new(), ar: None };
     }
     let p = path.to_string();
     match guarded(move || Archive::open(Path::new(&p))) {
-        Outcome::Done(Ok(a)) => Opened { res: "ok".into(), ar: Some(a) },
-        Outcome::Done(Err(e)) => Opened { res: format!("err:{}", variant_name(&e)), ar: None },
-        Outcome::Panic(_) => Opened { res: "panic".into(), ar: None },
-        Outcome::Hang => Opened { res: "hang".into(), ar: None },
+        Outcome::Done(Ok(a)) => Opened { res: "ok".into(), path: path.to_string(), ar: Some(a) },
+        Outcome::Done(Err(e)) => Opened { res: format!("err:{}", variant_name(&e)), path: path.to_string(), ar: None },
+        Outcome::Panic(_) => Opened { res: "panic".into(), path: path.to_string(), ar: None },
+        Outcome::Hang => Opened { res: "hang".into(), path: path.to_string(), ar: None },
     }
 }
 
-/// results of reading `name` under its four spellings: ([res], [len], [tok])
+/// One `read_file` call under a watchdog. A wrong key makes the library read garbage sector offsets and
+/// zero-fill up to 4 GB per sector before it fails; a mutated library can take minutes. The archive handle
+/// travels into the helper thread and comes back with the result; after a hang/panic the variant is closed.
+fn read_one(o: &mut Opened, sp: &str) -> (String, i64, String) {
+    if o.ar.is_none() && o.res == "ok" {
+        // the handle was lost in a hang/panic of an earlier call: open the archive again
+        o.ar = open_variant(&o.path).ar;
+    }
+    let Some(mut a) = o.ar.take() else {
+        return ("closed".into(), -1, String::new());
+    };
+    let spc = sp.to_string();
+    let limit = std::time::Duration::from_secs(60);
+    match with_watchdog(limit, move || {
+        let r = a.read_file(&spc);
+        (a, r)
+    }) {
+        Outcome::Done((a, r)) => {
+            o.ar = Some(a);
+            match r {
+                Ok(d) => ("ok".into(), d.len() as i64, tok(&d)),
+                Err(wow_mpq::Error::FileNotFound(_)) => ("notfound".into(), -1, String::new()),
+                Err(e) => (format!("err:{}", variant_name(&e)), -1, String::new()),
+            }
+        }
+        Outcome::Panic(_) => ("panic".into(), -1, String::new()),
+        Outcome::Hang => ("hang".into(), -1, String::new()),
+    }
+}
+
+/// results of reading `name` under its four spellings: ([res], [len], [tok]); after a hard failure
+/// (error, panic, hang) the remaining spellings are recorded as "skipped" (not attempted).
 fn read_all(o: &mut Opened, name: &str) -> Value {
     let mut res = Vec::new();
     let mut lens = Vec::new();
     let mut toks = Vec::new();
+    let mut failed = false;
     for sp in spellings(name) {
-        match o.ar.as_mut() {
-            None => {
-                res.push("closed".to_string());
-                lens.push(-1i64);
-                toks.push(String::new());
-            }
-            Some(a) => match guarded(|| a.read_file(&sp)) {
-                Outcome::Done(Ok(d)) => {
-                    res.push("ok".into());
-                    lens.push(d.len() as i64);
-                    toks.push(tok(&d));
-                }
-                Outcome::Done(Err(wow_mpq::Error::FileNotFound(_))) => {
-                    res.push("notfound".into());
-                    lens.push(-1);
-                    toks.push(String::new());
-                }
-                Outcome::Done(Err(e)) => {
-                    res.push(format!("err:{}", variant_name(&e)));
-                    lens.push(-1);
-                    toks.push(String::new());
-                }
-                Outcome::Panic(_) => {
-                    res.push("panic".into());
-                    lens.push(-1);
-                    toks.push(String::new());
-                }
-                Outcome::Hang => {
-                    res.push("hang".into());
-                    lens.push(-1);
-                    toks.push(String::new());
-                }
-            },
+        let (r, l, t) = if failed { ("skipped".to_string(), -1, String::new()) } else { read_one(o, &sp) };
+        if r != "ok" && r != "notfound" {
+            failed = true;
         }
+        res.push(r);
+        lens.push(l);
+        toks.push(t);
     }
     json!({"res": res, "len": lens, "tok": toks})
 }
 
 fn list_of(o: &mut Opened) -> Value {
-    match o.ar.as_mut() {
-        None => json!({"res": "closed", "names": [], "sizes": []}),
-        Some(a) => match guarded(|| a.list()) {
-            Outcome::Done(Ok(es)) => {
-                let mut v: Vec<(String, u64)> = es.into_iter().map(|e| (e.name, e.size)).collect();
-                v.sort();
-                json!({"res": "ok", "names": v.iter().map(|x| x.0.clone()).collect::<Vec<_>>(),
-                       "sizes": v.iter().map(|x| x.1).collect::<Vec<_>>()})
+    let Some(mut a) = o.ar.take() else {
+        return json!({"res": "closed", "names": [], "sizes": []});
+    };
+    match with_watchdog(std::time::Duration::from_secs(30), move || {
+        let r = a.list();
+        (a, r)
+    }) {
+        Outcome::Done((a, r)) => {
+            o.ar = Some(a);
+            match r {
+                Ok(es) => {
+                    let mut v: Vec<(String, u64)> = es.into_iter().map(|e| (e.name, e.size)).collect();
+                    v.sort();
+                    json!({"res": "ok", "names": v.iter().map(|x| x.0.clone()).collect::<Vec<_>>(),
+                           "sizes": v.iter().map(|x| x.1).collect::<Vec<_>>()})
+                }
+                Err(e) => json!({"res": format!("err:{}", variant_name(&e)), "names": [], "sizes": []}),
             }
-            Outcome::Done(Err(e)) => json!({"res": format!("err:{}", variant_name(&e)), "names": [], "sizes": []}),
-            Outcome::Panic(_) => json!({"res": "panic", "names": [], "sizes": []}),
-            Outcome::Hang => json!({"res": "hang", "names": [], "sizes": []}),
-        },
+        }
+        Outcome::Panic(_) => json!({"res": "panic", "names": [], "sizes": []}),
+        Outcome::Hang => json!({"res": "hang", "names": [], "sizes": []}),
     }
 }
 
@@ -233,4 +247,6 @@ fn main() {
         _ => tool_error("usage: c02 <cases> <trace> write|read"),
     }
     trace.flush();
+    drop(trace);
+    std::process::exit(0); // leaked watchdog threads must not keep the process alive
 }
